@@ -62,7 +62,7 @@ META = {
               "(2) random lengths up to 1e5 with random slices, loops (incl. loop end == length, start inside/after the loop), rates, rate pairs; (3) long sounds at rate 1 with seek_to/seek_by/set_loop_region at random callback boundaries. "
               "Oracles: bit-exact index sequence at |rate|*sound_rate*dt == 1; 4-point Hermite of the model sequence at the f64-accumulated position otherwise (8e-6 relative); any sample >= 2.5e5 is an out-of-slice read; Stopped not before the last frame was heard and reported by the callback containing sequence index last+4; "
               "after commands every consecutive heard pair obeys the loop successor rule, seeks land within one frame of the request once the 4-frame window has refilled, reported position within one frame of the heard frame. "
-              "A case is distinct and non-trivial when its expected index sequence (first 64) x rate x chunk class x rate-pair class is new and non-empty. Command cases also run on slices of longer buffers with open-ended run-time loop regions (a looping sound must not stop); slices may extend past the audio data; a reversed sound above its loop is seeked to frames at or after the loop end. The slice is given in one of the equivalent ways: the field, .slice(a..b), a second .slice() replacing an earlier one, and the open-ended a.. when it ends at the end of the data."),
+              "A case is distinct and non-trivial when its expected index sequence (first 64) x rate x chunk class x rate-pair class is new and non-empty. Command cases also run on slices of longer buffers with open-ended run-time loop regions (a looping sound must not stop); slices may extend past the audio data; a reversed sound above its loop is seeked to frames at or after the loop end. The slice is given in one of the equivalent ways: the field, .slice(a..b), a second .slice() replacing an earlier one, and the open-ended a.. when it ends at the end of the data. A loop that runs to the end of the sound is given, every other time, in its open-ended form (.. / a..)."),
         exhaustive_quick=True,
         exhaustive_thorough=True,
         domain="valid slices (start<=end<=frames), loop regions with start<end<=len; degenerate regions belong to C01; excluded while listed as known finding: reverse with start position >= length",
@@ -178,7 +178,7 @@ META = {
         design_ref="DESIGN.md §3 C11",
         rule=("Random scenes of real components (static noise sounds with any rate/loop/pan/volume/reverse, track trees depth <= 3, up to 2 sends with routes, chains of the 8 built-in effects with fixed parameters incl. nested delays) are rendered once with internal buffer 128 / callbacks of 128 and three more times with "
               "buffer sizes from {1,2,3,7,16,64,128,333,1024,4096}, callback-size sequences (one-frame, non-multiples, 441, random 1..3*ibs) and 1..8 channels. Every frame is compared: bit-exact for scenes without recursive effects, <= 1e-6 otherwise; mono must be (L+R)/2 of the reference, extra channels silent. "
-              "15 % of scenes have no effects, 35 % only memoryless effects. A case is distinct when (tracks, sends, sounds, recursive?, main-chain kinds) is new and the reference rendering is non-silent."),
+              "15 % of scenes have no effects, 35 % only memoryless effects. A case is distinct when (tracks, sends, sounds, recursive?, main-chain kinds) is new and the reference rendering is non-silent. Two further families: a burst - exact digital silence longer than a chunk - another burst through one effect with memory (compressor that compresses, delay with a filter in its feedback loop, reverb, resonant filter), <= 1e-6; and a plain sound at a fixed playback rate of 1.5 / 0.75 / 1.25 / 3 / 0.9 / 0.6 rendered in chunks of 100, 37+5, 441 or 2 ibs + 1 and 3 frames, bit-exact."),
         domain="fixed parameters, no commands in flight, stable effect settings (loop gain < 1), degenerate settings listed under C13 are not generated",
         assumptions=["clocks/tweens/modulators are chunk-quantised by design and belong to C05/C06/C17"],
         quick=[rel(25)],
